@@ -1,14 +1,6 @@
-import CalVerif.Model.OdsCell
+import CalVerif.Spec.OdsCell
 /-! Helper lemmas for the attribute loop of `get_datatype` (C04). -/
 namespace OdsCell
-
-/-- the formula after the attributes `l`: the last `table:formula` wins -/
-def formulaAfter (f0 : String) (l : List Attr) : String :=
-  l.foldl (fun f a => (a.formulaOf).getD f) f0
-
-/-- `is_string` after the attributes `l` (no value attribute seen): the last `office:value-type` decides -/
-def stringAfter (b0 : Bool) (l : List Attr) : Bool :=
-  l.foldl (fun b a => match a with | .valueType raw => decide (raw = "string") | _ => b) b0
 
 theorem loop_append : ∀ (l1 l2 : List Attr) (s : St),
     loop s (l1 ++ l2) = (loop s l1).bind fun s' => loop s' l2
@@ -48,5 +40,89 @@ theorem loop_unset : ∀ (l : List Attr) (s : St), s.isValueSet = false → (∀
 theorem formulaAfter_append (f0 : String) (l1 l2 : List Attr) :
     formulaAfter f0 (l1 ++ l2) = formulaAfter (formulaAfter f0 l1) l2 := by
   simp [formulaAfter, List.foldl_append]
+
+theorem getDatatype_first_value (pre post : List Attr) (a : Attr) (ha : a.isValue = true) (hp : a ≠ .value none)
+    (hpre : ∀ x ∈ pre, x.isValue = false) :
+    getDatatype (pre ++ a :: post) = some ⟨a.valOf, formulaAfter "" (pre ++ a :: post), false⟩ := by
+  unfold getDatatype
+  rw [loop_append, loop_unset pre {} rfl hpre]
+  simp only [Option.bind_some, loop]
+  have hstep : step { formula := formulaAfter "" pre, isString := stringAfter false pre } a =
+      some { val := a.valOf, isValueSet := true, isString := stringAfter false pre, formula := formulaAfter "" pre } := by
+    cases a with
+    | value parsed =>
+      cases parsed with
+      | none => exact absurd rfl hp
+      | some bits => rfl
+    | stringValue t => rfl
+    | dateValue t => rfl
+    | timeValue t => rfl
+    | boolValue raw => rfl
+    | valueType raw => simp [Attr.isValue] at ha
+    | formula f => simp [Attr.isValue] at ha
+    | other => simp [Attr.isValue] at ha
+  rw [hstep]
+  simp only
+  rw [loop_set post _ rfl]
+  simp only [Bool.not_true, Bool.false_and, Option.some.injEq, Out.mk.injEq, true_and, and_true]
+  rw [formulaAfter_append]
+  have : formulaAfter (formulaAfter "" pre) (a :: post) = formulaAfter (formulaAfter "" pre) post := by
+    cases a <;> first | rfl | (simp [Attr.isValue] at ha; done)
+  rw [this]
+
+theorem getDatatype_no_value (attrs : List Attr) (h : ∀ x ∈ attrs, x.isValue = false) :
+    getDatatype attrs = some ⟨.empty, formulaAfter "" attrs, stringAfter false attrs⟩ := by
+  unfold getDatatype
+  rw [loop_unset attrs {} rfl h]
+  simp
+
+/-- `get_datatype`'s attribute loop computes `cellValue` / `cellFormula` (`content` is only used when the
+    result says so) -/
+theorem getDatatype_spec (attrs : List Attr) (hp : attrs.find? Attr.isValue ≠ some (.value none)) :
+    ∃ o, getDatatype attrs = some o ∧ o.formula = cellFormula attrs ∧
+      (o.useText = false → ∀ content, cellValue attrs content = o.val) ∧
+      (o.useText = true → attrs.find? Attr.isValue = none ∧ stringAfter false attrs = true ∧
+        ∀ content, cellValue attrs content = .str content) := by
+  cases hf : attrs.find? Attr.isValue with
+  | some a =>
+    obtain ⟨ha, pre, post, rfl, hpre⟩ := List.find?_eq_some_iff_append.1 hf
+    refine ⟨_, getDatatype_first_value pre post a ha (by rw [hf] at hp; intro h; exact hp (by rw [h]))
+      (fun x hx => by simpa using hpre x hx), rfl, ?_, ?_⟩
+    · intro _ content; simp only [cellValue, hf]
+    · intro h; simp at h
+  | none =>
+    have hall : ∀ x ∈ attrs, x.isValue = false := by
+      intro x hx
+      have := List.find?_eq_none.1 hf x hx
+      simpa using this
+    refine ⟨_, getDatatype_no_value attrs hall, rfl, ?_, ?_⟩
+    · intro h content
+      simp at h
+      simp only [cellValue, hf, h, Bool.false_eq_true, if_false]
+    · intro h
+      simp at h
+      exact ⟨rfl, h, fun content => by simp only [cellValue, hf, h, if_true]⟩
+
+/-- with every `office:value-type` equal to `string` (and at least one present) the type is string -/
+theorem stringAfter_of_all (attrs : List Attr) (b0 : Bool)
+    (hall : ∀ raw, Attr.valueType raw ∈ attrs → raw = "string")
+    (hex : b0 = true ∨ Attr.valueType "string" ∈ attrs) : stringAfter b0 attrs = true := by
+  induction attrs generalizing b0 with
+  | nil => rcases hex with h | h; exact h; simp at h
+  | cons a rest ih =>
+    simp only [stringAfter, List.foldl_cons]
+    have hall' : ∀ raw, Attr.valueType raw ∈ rest → raw = "string" := fun raw h => hall raw (by simp [h])
+    cases a with
+    | valueType raw =>
+      have : raw = "string" := hall raw (by simp)
+      subst this
+      exact ih true hall' (Or.inl rfl)
+    | value p => exact ih b0 hall' (by rcases hex with h | h; exact Or.inl h; right; simpa using h)
+    | stringValue p => exact ih b0 hall' (by rcases hex with h | h; exact Or.inl h; right; simpa using h)
+    | dateValue p => exact ih b0 hall' (by rcases hex with h | h; exact Or.inl h; right; simpa using h)
+    | timeValue p => exact ih b0 hall' (by rcases hex with h | h; exact Or.inl h; right; simpa using h)
+    | boolValue p => exact ih b0 hall' (by rcases hex with h | h; exact Or.inl h; right; simpa using h)
+    | formula p => exact ih b0 hall' (by rcases hex with h | h; exact Or.inl h; right; simpa using h)
+    | other => exact ih b0 hall' (by rcases hex with h | h; exact Or.inl h; right; simpa using h)
 
 end OdsCell
